@@ -185,6 +185,12 @@ def step (st : St) (ws : List String) : St × String :=
       ({ st with nodes := writeN fuel ns1 inner (Flushable.flushOps ov) }, "ok")
     | some _ => (st, "noflushable")
     | none => (st, "nostore")
+  | ["init", name] =>
+    -- LazyFlushable.InitUnderlyingDb: from now on reads reach the produced store
+    match ns.lookup name with
+    | some (.flush inner ov size true _) => ({ st with nodes := setNode ns name (.flush inner ov size true true) }, "ok")
+    | some _ => (st, "nolazy")
+    | none => (st, "nostore")
   | ["drop", name] =>
     match ns.lookup name with
     | some (.flush inner _ _ isLazy inited) => ({ st with nodes := setNode ns name (.flush inner [] 0 isLazy inited) }, "ok")
